@@ -344,7 +344,9 @@ func (co *Conn) WriteMsg(m *Msg) (err error) {
 	var out []byte
 	if t := m.IsTsig(); t != nil {
 		// Set tsigRequestMAC for the next read, although only used in zone transfers.
-		out, co.tsigRequestMAC, err = TsigGenerateWithProvider(m, co.tsigProvider(), co.tsigRequestMAC, false)
+		// A request is signed on its own (RFC 8945 5.2); the MAC of an earlier
+		// query on this connection is not part of it.
+		out, co.tsigRequestMAC, err = TsigGenerateWithProvider(m, co.tsigProvider(), "", false)
 	} else {
 		out, err = m.Pack()
 	}
